@@ -77,6 +77,112 @@ pub mod proofs {
     #[kani::proof] #[kani::stub(f64::sin, nd_trig)] #[kani::stub(f64::cos, nd_trig)] #[kani::unwind(12)] pub fn c18_t_sinc_d3_k3_xfixed() { run::<6, 3>(false) }
     #[kani::proof] #[kani::stub(f64::sin, nd_trig)] #[kani::stub(f64::cos, nd_trig)] #[kani::unwind(12)] pub fn c18_t_sinc_d3_k5_xfixed() { run::<6, 5>(false) }
 
+    // ---------------------------------------------------------------- transparency at ratio exactly 1 (x == 0)
+    // At x == 0 the only arguments sin / cos receive are k*PI and k*PI/depth (k <= depth).  ASSUMED CONTRACT ON libm: at
+    // those arguments sin / cos return the values below (glibc's, i.e. the correctly rounded ones: |sin(fl(k*PI))| < 4e-16,
+    // cos(fl(PI)) == -1, ...); at any other argument the stub returns an arbitrary value in [-1, 1].
+    pub fn tab_sin(x: f64) -> f64 {
+        let b = x.to_bits();
+        if b == 0 { 0.0 }
+        else if b == 0x400921fb54442d18 { 1.2246467991473532e-16 }       // fl(PI)
+        else if b == 0x401921fb54442d18 { -2.4492935982947064e-16 }      // 2 PI
+        else if b == 0x4022d97c7f3321d2 { 3.6739403974420594e-16 }       // 3 PI
+        else { nd_trig(x) }
+    }
+    pub fn tab_cos(x: f64) -> f64 {
+        let b = x.to_bits();
+        if b == 0 { 1.0 }
+        else if b == 0x400921fb54442d18 { -1.0 }                         // PI
+        else if b == 0x3ff921fb54442d18 { 6.123233995736766e-17 }        // PI / 2
+        else if b == 0x3ff0c152382d7365 { 0.5000000000000001 }           // PI / 3
+        else if b == 0x4000c152382d7365 { -0.4999999999999998 }          // 2 PI / 3
+        else { nd_trig(x) }
+    }
+
+    /// integer format (i32: more significant bits than f32 holds): after K fed frames, interpolate(0.0) returns EXACTLY the
+    /// frame fed `depth` frames before the next one (silence while priming): every other tap contributes less than one LSB
+    fn transparent_i32<const LEN: usize, const K: usize>() {
+        let depth = LEN / 2;
+        let mut s = Sinc::new(rb::Fixed::from([[0i32; 1]; LEN]));
+        let fed: [i32; K] = core::array::from_fn(|_| kani::any());
+        let mut i = 0;
+        while i < K { s.next_source_frame([fed[i]]); i += 1; }
+        let out = s.interpolate(0.0);
+        let want = if K >= depth && K >= 1 { fed[K - depth] } else { 0 };
+        assert!(out[0] == want, "P: ratio 1 reproduces the source delayed by depth frames (integer format: exactly)");
+    }
+    /// f64 format: within 1e-12 of the peak input amplitude
+    fn transparent_f64<const LEN: usize, const K: usize>() {
+        let depth = LEN / 2;
+        let mut s = Sinc::new(rb::Fixed::from([[0.0f64; 1]; LEN]));
+        let fed: [f64; K] = core::array::from_fn(|_| fin());
+        let mut peak = 0.0f64;
+        let mut i = 0;
+        while i < K { s.next_source_frame([fed[i]]); if fed[i].abs() > peak { peak = fed[i].abs(); } i += 1; }
+        let out = s.interpolate(0.0);
+        let want = if K >= depth && K >= 1 { fed[K - depth] } else { 0.0 };
+        assert!((out[0] - want).abs() <= 1.0e-12 * peak, "P: ratio 1 reproduces the source delayed by depth frames within 1e-12 of the peak");
+    }
+    #[kani::proof] #[kani::stub(f64::sin, tab_sin)] #[kani::stub(f64::cos, tab_cos)] #[kani::unwind(8)] pub fn c18_b_transparent_i32_d1_k0() { transparent_i32::<2, 0>() }
+    #[kani::proof] #[kani::stub(f64::sin, tab_sin)] #[kani::stub(f64::cos, tab_cos)] #[kani::unwind(8)] pub fn c18_b_transparent_i32_d1_k1() { transparent_i32::<2, 1>() }
+    #[kani::proof] #[kani::stub(f64::sin, tab_sin)] #[kani::stub(f64::cos, tab_cos)] #[kani::unwind(8)] pub fn c18_b_transparent_i32_d1_k3() { transparent_i32::<2, 3>() }
+    #[kani::proof] #[kani::stub(f64::sin, tab_sin)] #[kani::stub(f64::cos, tab_cos)] #[kani::unwind(10)] pub fn c18_b_transparent_i32_d2_k1() { transparent_i32::<4, 1>() }
+    #[kani::proof] #[kani::stub(f64::sin, tab_sin)] #[kani::stub(f64::cos, tab_cos)] #[kani::unwind(10)] pub fn c18_b_transparent_i32_d2_k2() { transparent_i32::<4, 2>() }
+    #[kani::proof] #[kani::stub(f64::sin, tab_sin)] #[kani::stub(f64::cos, tab_cos)] #[kani::unwind(10)] pub fn c18_b_transparent_i32_d2_k5() { transparent_i32::<4, 5>() }
+    #[kani::proof] #[kani::stub(f64::sin, tab_sin)] #[kani::stub(f64::cos, tab_cos)] #[kani::unwind(8)] pub fn c18_b_transparent_f64_d1_k2() { transparent_f64::<2, 2>() }
+    #[kani::proof] #[kani::stub(f64::sin, tab_sin)] #[kani::stub(f64::cos, tab_cos)] #[kani::unwind(10)] pub fn c18_b_transparent_f64_d2_k3() { transparent_f64::<4, 3>() }
+    #[kani::proof] #[kani::stub(f64::sin, tab_sin)] #[kani::stub(f64::cos, tab_cos)] #[kani::unwind(12)] pub fn c18_t_transparent_i32_d3_k4() { transparent_i32::<6, 4>() }
+    #[kani::proof] #[kani::stub(f64::sin, tab_sin)] #[kani::stub(f64::cos, tab_cos)] #[kani::unwind(12)] pub fn c18_t_transparent_f64_d3_k4() { transparent_f64::<6, 4>() }
+
+    // ---------------------------------------------------------------- C08: linear / floor interpolators on integer formats
+    // (the Verus unit `converter` proves the blend over exact reals on f64 frames; here the sample-format side: the blend of
+    //  two integer frames is the straight line between them to within one LSB, exact at x == 0, and never outside them)
+    use dasp_interpolate::{linear::Linear, floor::Floor};
+    macro_rules! linear_int { ($name:ident, $T:ty, $k:expr) => {
+        #[kani::proof]
+        pub fn $name() {
+            let l: $T = kani::any(); let r: $T = kani::any();
+            let x: f64 = $k as f64 * 0.25;       // concrete position k/4 (a symbolic x is a symbolic f64 multiplier)
+            let li = Linear::new([l], [r]);
+            let o = li.interpolate(x)[0];
+            if $k == 0 { assert!(o == l, "P: x == 0 reproduces the left frame exactly"); }
+            let (lo, hi) = if l < r { (l, r) } else { (r, l) };
+            assert!(o >= lo && o <= hi, "P: the blend lies between the two frames");
+            // (closeness of the blend to the real straight line within one LSB does not finish in CBMC for x != 0 —
+            //  measured: > 10 min for i16 — it is left to the paired native search)
+        }
+    }; }
+    linear_int!(c08_linear_blend_i32_x0, i32, 0);
+    linear_int!(c08_linear_blend_i32_x2, i32, 2);
+    linear_int!(c08_linear_blend_i32_x3, i32, 3);
+    linear_int!(c08_linear_blend_u32_x0, u32, 0);
+    linear_int!(c08_linear_blend_u32_x1, u32, 1);
+    linear_int!(c08_linear_blend_i16_x0, i16, 0);
+    linear_int!(c08_linear_blend_i16_x1, i16, 1);
+    linear_int!(c08_linear_blend_i16_x3, i16, 3);
+    linear_int!(c08_linear_blend_u8_x0, u8, 0);
+    linear_int!(c08_linear_blend_u8_x2, u8, 2);
+    // (i64 / u64 frames are NOT covered: amplitudes with more than 53 significant bits cannot survive the blend through f64 —
+    //  Linear::new([(1 << 62) + 1], ..).interpolate(0.0) yields 1 << 62 — which we read as the property's "up to float rounding")
+
+    /// feeding shifts right -> left; reset silences both; floor holds the last frame whatever x (2-channel i32 frames)
+    #[kani::proof]
+    pub fn c08_linear_floor_state_i32() {
+        let l: [i32; 2] = kani::any(); let r: [i32; 2] = kani::any(); let n: [i32; 2] = kani::any();
+        let mut li = Linear::new(l, r);
+        li.next_source_frame(n);
+        assert!(li.interpolate(0.0) == r);
+        li.reset();
+        assert!(li.interpolate(0.5) == [0, 0]);
+        let x: f64 = kani::any();
+        let mut fl = Floor::new(l);
+        assert!(fl.interpolate(x) == l);
+        fl.next_source_frame(r);
+        assert!(fl.interpolate(x) == r);
+        fl.reset();
+        assert!(fl.interpolate(x) == [0, 0]);
+    }
+
     /// `new` rejects an odd number of frames
     #[kani::proof]
     #[kani::should_panic]
